@@ -644,6 +644,8 @@ def main(tier):
     rep.attempt(check_df_lane_limits, rep)
     import stridecover
     rep.attempt(stridecover.check, rep, 'DEFLATE', {'igzip_deflate', 'igzip_histogram', 'igzip_set_long', 'igzip_encode_df', 'igzip_hash'}, 100, lookahead=True)
+    import c04
+    rep.attempt(c04.check_adler, rep)          # zlib trailers: "accepting the trailer" rests on the Adler-32 kernels' constants and overflow schedule
     for c in CONFIGS:
         lay = hufftables_layout(c)
         unpack = unpack_consts(c)
